@@ -22,13 +22,19 @@ def run(F, rep):
     rep.run(dt_tables.graph_step_table, F, rep, "C04.3")
     rep.run(dt_compress.extender_table, F, rep, "C04.3", graph_route=True)
     rep.run(dt_compress.graph_builder_table, F, rep, "C04.3")
+    # ... and the three private functions of the graph route interpreted together on scripted lines of nodes
+    rep.run(dt_compress.graph_chain_table, F, rep, "C04.3")
     rep.run(dt_msp.piece_closure_table, F, rep, "C04.4")
     rep.run(dt_msp.slice_bounds_tables, F, rep, "C04.4")
     rep.run(dt_msp.score_closure_tables, F, rep, "C04.4")
+    # the pieces are cut at the scanner's intervals: coverage of every k-mer exactly once and the 2k-p length bound (fixed-size piece
+    # containers are dimensioned by it) are the scanner's
+    rep.run(dt_msp.scan_tables, F, rep, "C04.4")
     # per-shard pruning keeps links that leave the shard and links to valid k-mers (incl. a k-mer's link to itself); re-compression resolves
     # links through find_link / get_valid_exts under the graph's strandedness
     rep.run(dt_graph.censor_tables, F, rep, "C04.5")
     rep.run(dt_graph.find_link_table, F, rep, "C04.6")
+    rep.run(dt_graph.finish_tables, F, rep, "C04.6")
     rep.run(dt_graph.get_valid_exts_table, F, rep, "C04.6")
     rep.run(dt_graph.fix_exts_table, F, rep, "C04.6")
     # recombination looks nodes up by their terminal k-mers (views of the packed store) and reads shard pieces back as k-mers
